@@ -850,6 +850,7 @@ func run(c *core.Ctx) {
 		mixed(res, r, mixedRuns/W+1)
 		sessionEvents(res, r, 6)
 		sessionLifetime(res, r, 6)
+		firstContactRace(res, r, c.Q(6, 60))
 	})
 
 	// Concurrent deliveries + linearizability, plain build.
@@ -878,6 +879,7 @@ func run(c *core.Ctx) {
 	res.Assume("AEAD/Ed25519 are unforgeable; the monitors check at-most-once acceptance of authentic frames, not forgery resistance")
 	res.Assume("numbers older than the 64-frame window may be accepted or rejected (statement leaves it open); if accepted they join the accepted set")
 	res.Require(res.Distinct() >= 1000, "fewer than 1000 distinct non-trivial histories")
+	res.Require(res.Counter("first_contact_races") >= 20, "fewer than 20 first-contact races (several workers, one signed frame, no session object yet)")
 }
 
 // mixed delivers interleaved regular and priority frames of ONE session and
@@ -1202,5 +1204,87 @@ func sessionLifetime(res *core.Result, r *rand.Rand, runs int) {
 		}
 		res.Count(fmt.Sprintf("session_lifetime_histories:keys=%v", withKeys), 1)
 		res.Case(fmt.Sprintf("session-lifetime|%v|%d", withKeys, run), true)
+	}
+}
+
+// firstContactRace: two workers of one router handle two copies of the same signed frame at the same moment, and the
+// frame comes from a router the receiver knows (storage) but holds no session object for - first contact after a
+// restart, or after the cleaner dropped an idle session. Each worker asks the state manager for the session and
+// unseals with what it got; the storage lookup in between is a real suspension point (a state file, a database),
+// stretched here (env.SlowStorage) so that the two workers meet in it. At most one copy may be accepted; the same for
+// two different frames of one sender delivered newest first (the older one must not be accepted by a second filter).
+func firstContactRace(res *core.Result, r *rand.Rand, runs int) {
+	for run := 0; run < runs; run++ {
+		a := env.NewBareInstance(env.NewIdentity(r, nil), nil)
+		b := env.NewBareInstance(env.NewIdentity(r, nil), nil)
+		ab, _, err := env.Introduce(a, b)
+		if err != nil {
+			res.Inconcl("introduce: %v", err)
+			return
+		}
+		// the receiver forgets the (unused, keyless) session object: more than its idle lifetime passes, the cleaner ticks
+		b.StateV.VerifAdvanceTime(3 * time.Minute)
+		b.StateV.VerifHousekeeping()
+		if b.StateV.VerifHasSession(a.IdentityV.IP) {
+			res.Count("first_contact_session_not_dropped_by_cleaner", 1)
+			continue
+		}
+		mt := []frame.MessageType{frame.RouterPing, frame.RouterHopPing}[run%2]
+		data, err := sealTo(a, b, ab, mt)
+		if err != nil {
+			res.Inconcl("seal: %v", err)
+			return
+		}
+		workers := 2 + run%3
+		before := b.SlowV.GetRouterCalls.Load()
+		b.SlowV.SetGetRouterDelay(3 * time.Millisecond)
+		errs := make([]error, workers)
+		var wg sync.WaitGroup
+		start := make(chan struct{})
+		for g := 0; g < workers; g++ {
+			wg.Add(1)
+			core.OnHelper(func() {
+				defer wg.Done()
+				<-start
+				st := b.StateV.GetSession(a.IdentityV.IP)
+				if st == nil {
+					errs[g] = fmt.Errorf("no session")
+					return
+				}
+				errs[g] = unsealAt(b, st, data)
+			})
+		}
+		close(start)
+		wg.Wait()
+		b.SlowV.SetGetRouterDelay(0)
+		accepted := 0
+		for _, e := range errs {
+			if e == nil {
+				accepted++
+			}
+		}
+		lookups := b.SlowV.GetRouterCalls.Load() - before
+		if accepted > 1 {
+			res.Violate("first-contact-race:signed-frame-accepted-twice", fmt.Sprintf("%d workers handled copies of one signed frame (type %d) of a known router without session object at the same moment (%d storage lookups): %d copies were accepted: %v", workers, mt, lookups, accepted, errs), map[string]any{"case_id": "first-contact-race"})
+			return
+		}
+		if accepted == 0 {
+			res.Violate("first-contact-race:fresh-frame-rejected", fmt.Sprintf("%d workers handled copies of one fresh signed frame at the same moment: none was accepted: %v", workers, errs), map[string]any{"case_id": "first-contact-race"})
+			return
+		}
+		// afterwards the one session object that is registered must refuse the frame as well
+		if st := b.StateV.GetSession(a.IdentityV.IP); st != nil {
+			if err := unsealAt(b, st, data); err == nil {
+				res.Violate("first-contact-race:replay-accepted-afterwards", "after two workers handled copies of one signed frame at first contact, the registered session accepted the frame once more", map[string]any{"case_id": "first-contact-race"})
+				return
+			}
+		}
+		res.Count("first_contact_races", 1)
+		if lookups >= 2 {
+			res.Count("first_contact_races_with_overlapping_lookups", 1)
+		} else {
+			res.Count("first_contact_races_serialised_by_the_state_manager", 1)
+		}
+		res.Case(fmt.Sprintf("first-contact-race|%d|%d|%d", mt, workers, run), true)
 	}
 }
